@@ -54,7 +54,12 @@ def witness_cases():
     old, new = sc.ENGINEERED[0]
     A = {"props": {"p1": "a"}, "refs": {}}
     D = {"deleted": True, "props": {"p1": "a"}, "refs": {}}
-    return [
+    B = {"props": {"p1": "b"}, "refs": {}}
+    C = {"props": {"p1": "bb"}, "refs": {}}
+    race = {"datasets": ["a"], "ops": [{"op": "batch", "ds": "a", "ents": [sc.with_id("e1", A)]},
+                                       {"op": "race", "ds": "a", "ents": [sc.with_id("e1", B)], "second": [sc.with_id("e1", C)],
+                                        "pause_at": "lock.wait", "reader": "rx", "limit": 0}] + fin_reads(1, ["e1"])}
+    return [race,
         # F01a: un-delete with a 15-byte property is dropped: listing and lookup keep the deleted version
         {"datasets": ["a"], "ops": [{"op": "batch", "ds": "a", "ents": [sc.with_id("e1", old)]},
                                     {"op": "batch", "ds": "a", "ents": [sc.with_id("e1", new)]}] + fin_reads(1, ["e1"])},
@@ -74,8 +79,15 @@ def gen_case(rng, nw):
     pool = sc.IDS[:rng.choice([2, 3, 5])]
     writes = sc.gen_writes(rng, nds, nw, pool)
     ops = []
+    memo = {}
     for w in writes:
         ops.append(w)
+        if rng.chance(1, 6):
+            d = sc.DS_NAMES[rng.below(nds)]
+            ops.append(sc.gen_race(rng, pool, memo, d, "rx"))
+            ops.append({"op": "entities", "ds": d, "limits": [0]})
+            for i in pool[:3]:
+                ops.append({"op": "get", "id": sc.NS + i, "datasets": [d], "merge": True})
         if rng.chance(1, 3):
             d = sc.DS_NAMES[rng.below(nds)]
             ops.append({"op": "entities", "ds": d, "limits": [rng.choice([0, 1, 2, 3])]})
